@@ -194,8 +194,17 @@ pub struct Cfg {
 
 impl Cfg {
     pub fn n(&self, quick: u64, thorough: u64) -> u64 {
+        // quick budgets are multiplied by VERIF_SCALE_BIG (random in-process cases, quick >= 100) or
+        // VERIF_SCALE_SMALL (end-to-end cases); ./check raises both when the sources a property is anchored
+        // in differ from the fingerprints recorded for the tree the theorems were written against
+        fn factor(var: &str) -> u64 {
+            std::env::var(var).ok().and_then(|s| s.parse().ok()).filter(|&x: &u64| x >= 1).unwrap_or(1)
+        }
         match self.tier {
-            Tier::Quick => quick,
+            Tier::Quick => {
+                let f = if quick >= 100 { factor("VERIF_SCALE_BIG") } else { factor("VERIF_SCALE_SMALL") };
+                quick.saturating_mul(f).min(thorough.max(quick))
+            }
             Tier::Thorough => thorough,
         }
     }
